@@ -26,7 +26,7 @@ def showResp (r : Resp) : String :=
 def go (v : Variant) (size meth hdr : String) : String :=
   match size.toNat?, (if meth == "G" then some false else if meth == "H" then some true else none),
         (if hdr == "none" then some none else (strOfHex hdr).map some) with
-  | some n, some isHead, some h => showResp (render v (fileOf n) isHead h)
+  | some n, some isHead, some h => showResp (renderWith v (fileOf n).length (nodeRead (fileOf n)) isHead h)
   | _, _, _ => "bad-op"
 
 def optStr (h : String) : Option (Option (List Char)) :=
